@@ -788,3 +788,210 @@ impl Scenario for C20Cli {
         out
     }
 }
+
+// =====================================================================  macro
+
+mod canon_mod {
+    include!("../../macro-capture/src/canon.rs");
+    pub fn canonical(src: &str) -> Result<String, String> {
+        let ts: proc_macro2::TokenStream = src.parse().map_err(|e| format!("{e}"))?;
+        let mut s = String::new();
+        canon(ts, &mut s);
+        Ok(s)
+    }
+}
+
+#[derive(Clone, Debug, Serialize, Deserialize, PartialEq)]
+pub struct MacroPlan {
+    pub seed: u64,
+    /// the string literals handed to asn1!
+    pub inputs: Vec<String>,
+}
+
+/// the text the macro is documented to compile: bare snippets are wrapped in a dummy
+/// AUTOMATIC TAGS module named `asn1`
+fn documented_text(lit: &str) -> String {
+    if lit.contains("BEGIN") {
+        lit.to_string()
+    } else {
+        format!("asn1 {{ dummy(999) header(999) }}\n\nDEFINITIONS AUTOMATIC TAGS::= BEGIN\n{lit}END")
+    }
+}
+
+pub struct C20Macro;
+
+impl Scenario for C20Macro {
+    fn property(&self) -> &'static str {
+        "C20"
+    }
+    fn name(&self) -> &'static str {
+        "macro"
+    }
+    fn runs(&self, tier: Tier) -> u64 {
+        match tier {
+            Tier::Quick => 32,
+            Tier::Thorough => 400,
+        }
+    }
+    fn needs_reference(&self) -> bool {
+        true
+    }
+    fn has_subprocess(&self) -> bool {
+        true
+    }
+    fn crash_is_violation(&self) -> bool {
+        false
+    }
+
+    fn plan(&self, seed: u64, _idx: u64, _tier: Tier, _env: &Env) -> Value {
+        let root = Rng::new(seed);
+        let mut w = root.fork("workload");
+        let mut inputs = vec![];
+        for _ in 0..24 {
+            let mut cfg = GenCfg::default_cfg();
+            cfg.modules = (1, 1);
+            cfg.assigns = (1, 5);
+            cfg.imports = false;
+            let set = gen::generate(&mut w, &cfg);
+            let m = &set.modules[0];
+            let body: String = m.assigns.iter().map(|a| format!("{}\n", a.text)).collect();
+            let lit = match w.below(10) {
+                // bare snippet: the macro wraps it
+                0..=4 => body,
+                // a whole module (contains BEGIN): compiled as is, with its own TAGS default
+                5..=7 => m.text(&set.modules),
+                // malformed bare snippet / malformed module: the macro must fail, as the library does
+                8 => format!("{body} Broken ::= INTEGR ((\n"),
+                _ => m.text(&set.modules).replacen("::=", ":=", 1),
+            };
+            inputs.push(lit);
+        }
+        serde_json::to_value(&MacroPlan { seed, inputs }).unwrap()
+    }
+
+    /// the library on the documented text, one pristine process per input would be ideal;
+    /// inputs are independent single modules, so one process serves the batch
+    fn reference(&self, plan: &Value, _env: &Env) -> Value {
+        let p: MacroPlan = serde_json::from_value(plan.clone()).expect("macro plan");
+        std::env::remove_var("CARGO");
+        std::env::set_var("CARGO_HOME", "/nonexistent-dsim-cargo-home");
+        let outs: Vec<CompileOut> = p
+            .inputs
+            .iter()
+            .map(|l| sut::compile_to_string(&BackendSel::Rasn(RasnCfg::default_cfg()), &[Src::Literal(documented_text(l))], &BuilderPath::default()))
+            .collect();
+        serde_json::to_value(&outs).unwrap()
+    }
+
+    fn execute(&self, plan: &Value, refs: &Value, root: &str, env: &Env) -> Outcome {
+        let p: MacroPlan = serde_json::from_value(plan.clone()).expect("macro plan");
+        let mut out = Outcome::default();
+        let Ok(refs) = serde_json::from_value::<Vec<CompileOut>>(refs.clone()) else {
+            out.inconclusive.push("reference crashed".into());
+            return out;
+        };
+        // a crate whose only content is one asn1_capture! per input, expanded by a real rustc
+        let mut src = String::new();
+        for (i, l) in p.inputs.iter().enumerate() {
+            let mut hashes = String::from("#");
+            while l.contains(&format!("\"{hashes}")) {
+                hashes.push('#');
+            }
+            src.push_str(&format!("macro_capture::asn1_capture!(\"{root}/cap{i}\", r{hashes}\"{l}\"{hashes});\n"));
+        }
+        let batch = format!("{root}/batch.rs");
+        std::fs::write(&batch, &src).unwrap();
+        let sysroot = Command::new("rustc").arg("--print").arg("sysroot").env_remove("LD_PRELOAD").output().ok().map(|o| String::from_utf8_lossy(&o.stdout).trim().to_string()).unwrap_or_default();
+        let so = format!("{}/target/macro/release/libmacro_capture.so", env.verif);
+        // the real rustc, not the rustup proxy (which exports CARGO_HOME and thereby a rustfmt)
+        let o = Command::new(format!("{sysroot}/bin/rustc"))
+            .env_clear()
+            .env("PATH", "/usr/bin:/bin")
+            .args(["--edition", "2021", "--crate-type", "lib", "--emit=metadata", "-o", &format!("{root}/batch.rmeta"), "--extern", &format!("macro_capture={so}"), &batch])
+            .output();
+        let o = match o {
+            Ok(o) => o,
+            Err(e) => {
+                out.harness_error = Some(format!("cannot run rustc: {e}"));
+                return out;
+            }
+        };
+        if !o.status.success() {
+            out.harness_error = Some(format!("rustc failed on the capture crate: {}", crate::core::truncate(&String::from_utf8_lossy(&o.stderr), 600)));
+            return out;
+        }
+        let mut digest = String::new();
+        for (i, (l, r0)) in p.inputs.iter().zip(refs.iter()).enumerate() {
+            let cap = std::fs::read_to_string(format!("{root}/cap{i}")).unwrap_or_default();
+            digest.push_str(&format!("{i}:{};", fnv1a(cap.as_bytes())));
+            let wrapped = !l.contains("BEGIN");
+            let ctx = format!("input #{i} ({}): {}", if wrapped { "bare snippet, wrapped by the macro" } else { "whole module" }, crate::core::truncate(l, 300));
+            out.count("macro_expansions", 1);
+            out.count(if wrapped { "input.bare_snippet" } else { "input.whole_module" }, 1);
+            if cap.is_empty() {
+                out.harness_error = Some(format!("no capture file for input #{i}"));
+                continue;
+            }
+            let macro_panicked = cap.starts_with("PANIC");
+            if r0.panic.is_some() {
+                out.inconclusive.push(format!("library panicked on {ctx}"));
+                continue;
+            }
+            if !r0.ok {
+                out.count("library_err", 1);
+                if !macro_panicked {
+                    out.violate("O6-macro-fails-iff-library-errs", format!("compile_to_string() is Err({:?}) but asn1! expanded successfully; {ctx}", r0.err));
+                }
+                continue;
+            }
+            let lib = match canon_mod::canonical(&r0.generated) {
+                Ok(s) => s,
+                Err(e) => {
+                    // the library's text is not a Rust token stream: the macro's parse().unwrap() fails too
+                    if !macro_panicked {
+                        out.violate("O6-macro-equals-library", format!("library output does not tokenize ({e}) but the macro expanded; {ctx}"));
+                    }
+                    continue;
+                }
+            };
+            if macro_panicked {
+                out.violate("O6-macro-fails-iff-library-errs", format!("compile_to_string() is Ok but asn1! panicked; {ctx}"));
+                continue;
+            }
+            let got = cap.strip_prefix("OK\n").unwrap_or(&cap);
+            if got != lib {
+                let first = got.bytes().zip(lib.bytes()).position(|(a, b)| a != b).unwrap_or(got.len().min(lib.len()));
+                let cut = |s: &str| {
+                    let mut a = first.saturating_sub(80).min(s.len());
+                    while !s.is_char_boundary(a) {
+                        a -= 1;
+                    }
+                    let mut b = (first + 80).min(s.len());
+                    while !s.is_char_boundary(b) {
+                        b -= 1;
+                    }
+                    s[a..b].to_string()
+                };
+                out.violate("O6-macro-equals-library", format!("expansion differs from the parse of compile_to_string(): library …{}… / macro …{}…; {ctx}", cut(&lib), cut(got)));
+            }
+            out.sigs.push(fnv1a(l.as_bytes()));
+        }
+        out.steps = p.inputs.len() as u64;
+        out.log_hash = fnv1a(digest.as_bytes());
+        out.sample = Some(json!({"inputs": p.inputs.len(), "first": crate::core::truncate(&p.inputs[0], 200)}));
+        out
+    }
+
+    fn shrink(&self, plan: &Value) -> Vec<Value> {
+        let p: MacroPlan = serde_json::from_value(plan.clone()).unwrap();
+        let mut out = vec![];
+        if p.inputs.len() > 1 {
+            for i in 0..p.inputs.len() {
+                let mut q = p.clone();
+                q.inputs = vec![p.inputs[i].clone()];
+                out.push(serde_json::to_value(&q).unwrap());
+            }
+        }
+        out
+    }
+}
